@@ -7,16 +7,17 @@ instead of freeing it, so `next` stays valid.  The ideal cursor `(last, todo)` i
 `Spec.OrdMap.Cursor`.  Quantifiers: every total-order comparator, every table satisfying the invariant
 (any fill level), every program of `next` / `remove` calls.
 
-**Model boundary (`_model` names).**  In the model a node pointer is the *key* of the node, the tree is
-a value, `get_successor_node` is "the next entry of the in-order list" and `remove_node` is the
-functional deletion.  In such a model a pointer cannot dangle: a deletion that copied the successor's
-key/value into `z` and freed the successor *node* (the textbook variant that would break the C
-iterator) satisfies every theorem below just as well.  What the theorems do establish is the logic of
-the cursor — which key is handed out next, that removal affects exactly the entry yielded last, that
-order, red-black rules and sizes survive.  That the pre-computed `next` *pointer* survives
-`remove_node` in the C code is established by the correspondence harness: ASan on the real heap, the
-iterator's pointers printed as keys and compared with the model after every call, and a walker that
-reports an iterator pointer not reachable from the root.
+**What is modelled.**  A node is addressed by its path from the root; `get_successor_node` is modelled as
+the C loop on such positions (`Tree.succPath`: leftmost node of the right subtree, else climb while coming
+from the right) and `iter_next` computes the saved `next` with it (`Tree.succOfNode`).  An iterator refers
+to a node by its key — node identity: the C code re-links nodes and never moves a key from one node to
+another, keys are unique.  `saved_next_survives_remove` states what the saved pointer denotes after
+`remove_node(current)`: the node holding the same key, at its new position, with the same entry and the
+old in-order context minus the removed entry; `remove_moves_successor_up` is the two-child rule.  Outside
+the model: *which block* `remove_node` frees (a variant that copied the successor's key into `z` and
+freed the successor node would leave a dangling C pointer but the same tree of keys) — that is judged on
+the real heap: ASan, and the harness prints the iterator's pointers as key and position (computed by
+climbing the C `parent` pointers) and compares them with the model after every call.
 
 Contract exclusion: `iter_remove` before the first successful `iter_next` (`current` = sentinel) is
 outside the documented contract (the C code would unlink the sentinel).  The model answers
@@ -36,14 +37,14 @@ theorem nexts_valid (n : Nat) (t : TreeTable) (it : TreeIter) (m : Mem) :
 /-- **traversal_complete**: a fresh iterator and `n + 1` calls of `next` on a table of `n` entries
 yield exactly the entries (key in `val`, value in `log`), once each, in ascending key order, then
 `CC_ITER_END`; nothing is modified, nothing faults -/
-theorem traversal_complete_model (ho : TotalOrder cmp) (t : TreeTable) (h : t.Inv cmp) (m : Mem)
+theorem traversal_complete (ho : TotalOrder cmp) (t : TreeTable) (h : t.Inv cmp) (m : Mem)
     (hm : TreeTable.Owns t m) :
     (t.iterRun cmp t.iterInit (List.replicate (t.size + 1) .next) m).1 =
       t.abs.map (fun e => { st := some .ok, val := some e.1, log := [e.2] }) ++ [{ st := some .iterEnd }] ∧
     (keys t.abs).Pairwise (fun a b => cmp a b < 0) ∧ (keys t.abs).Nodup ∧
     (t.iterRun cmp t.iterInit (List.replicate (t.size + 1) .next) m).2.1.abs = t.abs ∧
     (t.iterRun cmp t.iterInit (List.replicate (t.size + 1) .next) m).2.2.2.fault = m.fault := by
-  have k := C03.iter_refines_model ho t h (List.replicate (t.size + 1) .next) m hm
+  have k := C03.iter_refines ho t h (List.replicate (t.size + 1) .next) m hm
   have a := k.1
   have hv := nexts_valid (cmp := cmp) (t.size + 1) t t.iterInit m
   have hc : ∀ (n : Nat) (c : Cursor) (f : OrdMap), (c.run f (List.replicate n .next)).2.2 = f := by
@@ -58,7 +59,7 @@ theorem traversal_complete_model (ho : TotalOrder cmp) (t : TreeTable) (h : t.In
 statuses, keys and values of the ideal cursor and the ideal final content; the invariant (search-tree
 order, red-black rules, size) and ledger consistency hold afterwards; and for programs inside the
 contract (`IterValid`: no `remove` before the first `next`) nothing faults -/
-theorem program_refines_model (ho : TotalOrder cmp) (t : TreeTable) (h : t.Inv cmp) (prog : List IterOp) (m : Mem)
+theorem program_refines (ho : TotalOrder cmp) (t : TreeTable) (h : t.Inv cmp) (prog : List IterOp) (m : Mem)
     (hm : TreeTable.Owns t m) :
     (t.iterRun cmp t.iterInit prog m).1 = ((Cursor.init t.abs).run t.abs prog).1 ∧
     (t.iterRun cmp t.iterInit prog m).2.1.abs = ((Cursor.init t.abs).run t.abs prog).2.2 ∧
@@ -67,7 +68,7 @@ theorem program_refines_model (ho : TotalOrder cmp) (t : TreeTable) (h : t.Inv c
     TreeTable.liveOf (t.iterRun cmp t.iterInit prog m).2.2.2 t.triple + t.size =
       TreeTable.liveOf m t.triple + (t.iterRun cmp t.iterInit prog m).2.1.size ∧
     TreeTable.Owns (t.iterRun cmp t.iterInit prog m).2.1 (t.iterRun cmp t.iterInit prog m).2.2.2 :=
-  C03.iter_refines_model ho t h prog m hm
+  C03.iter_refines ho t h prog m hm
 
 /-- a program whose first call is a `next` on a non-empty table is inside the contract whatever follows:
 `current` never returns to the sentinel -/
@@ -100,6 +101,48 @@ theorem valid_after_first_next (ho : TotalOrder cmp) (t : TreeTable) (h : t.Inv 
       | sentinel => exact absurd hc hcur
       | null => simp [hc]
       | «at» k => simp
+
+/-! ## The successor walk and the saved `next` pointer -/
+
+/-- `iter_next` saves `get_successor_node(current)`: the pointer walk from the node just yielded, which is
+its in-order successor (the sentinel after the last entry) -/
+theorem iter_next_saves_successor (ho : TotalOrder cmp) (t : TreeTable) (h : t.Inv cmp) (it : TreeIter) (k : Nat)
+    (hn : it.next = some k) (hk : k ∈ keys t.abs) :
+    (t.iterNext it).2.2.next = ((Tree.posOf k t.root).bind (Tree.succEntryAt t.root)).map (·.1) ∧
+    (t.iterNext it).2.2.next = (Tree.nextAfter t.abs k).map (·.1) ∧
+    (t.iterNext it).2.2.cur = .at k := by
+  simp only [TreeTable.iterNext, hn]
+  exact ⟨rfl, by rw [Tree.succOfNode_eq (Tree.bst_nodup ho h.1) k hk]; rfl, trivial⟩
+
+/-- **the pre-computed successor survives the deletion**: after `remove_node` of the node with key `c` the
+node the saved `next` refers to (key `n ≠ c`) is still in the tree, holds the same entry, and its in-order
+context is the old one with `c` erased — so the walk continues over exactly the not-yet-visited entries -/
+theorem saved_next_survives_remove (ho : TotalOrder cmp) (t : TreeTable) (h : t.Inv cmp) (c n : Nat) (m : Mem)
+    (hc : contains t.abs c = true) (hm : TreeTable.Owns t m) (hne : n ≠ c) (p : Tree.Path)
+    (hp : Tree.posOf n t.root = some p) :
+    ∃ p', Tree.posOf n (t.removeNode cmp c m).1.root = some p' ∧
+      Tree.entryAt (t.removeNode cmp c m).1.root p' = Tree.entryAt t.root p ∧
+      Tree.ctxBefore (t.removeNode cmp c m).1.root p' = erase (Tree.ctxBefore t.root p) c ∧
+      Tree.ctxAfter (t.removeNode cmp c m).1.root p' = erase (Tree.ctxAfter t.root p) c :=
+  TreeTable.next_survives_remove ho h c n m hc hm hne hp
+
+/-- … and when the removed node is the one yielded last (it lies before `next`), nothing after `next`
+changed at all -/
+theorem walk_after_iter_remove (ho : TotalOrder cmp) (t : TreeTable) (h : t.Inv cmp) (c n : Nat) (m : Mem)
+    (hc : contains t.abs c = true) (hm : TreeTable.Owns t m) (hlt : cmp c n < 0) (p : Tree.Path)
+    (hp : Tree.posOf n t.root = some p) :
+    ∃ p', Tree.posOf n (t.removeNode cmp c m).1.root = some p' ∧
+      Tree.ctxAfter (t.removeNode cmp c m).1.root p' = Tree.ctxAfter t.root p :=
+  TreeTable.walk_after_remove_unchanged ho h c n m hc hm hlt hp
+
+/-- CLRS's two-child rule: the successor's key and value move into the removed node's position (with its
+colour), then the right subtree is repaired -/
+theorem remove_moves_successor_up (c : Colour) (l : Tree) (k v : Nat) (r : Tree) (hl : l ≠ .nil) (hr : r ≠ .nil) :
+    ∃ e, Tree.succEntryAt (.node c l k v r) [] = some e ∧
+      Tree.removeHere (.node c l k v r) =
+        (if (Tree.delMin r).2 then Tree.fixDelRight (.node c l e.1 e.2 (Tree.delMin r).1)
+         else (.node c l e.1 e.2 (Tree.delMin r).1, false)) :=
+  Tree.removeHere_moves_successor c l k v r hl hr
 
 /-- what the ideal cursor does: `remove` erases exactly the entry yielded last (once), and the keys
 still to be visited are untouched — the traversal continues over precisely the not-yet-visited
@@ -139,14 +182,14 @@ theorem cursor_todo (prog : List IterOp) (c : Cursor) (m : OrdMap) :
 /-- set iterator programs: statuses and yielded elements are those of the ideal cursor over the
 elements (a successful `remove` hands back the dummy the table stored, which is what the cursor over
 the map-to-dummy returns); final content ideal; invariant preserved; no fault inside the contract -/
-theorem set_program_refines_model (ho : TotalOrder cmp) (s : TreeSet) (h : s.Inv cmp) (prog : List IterOp) (m : Mem)
+theorem set_program_refines (ho : TotalOrder cmp) (s : TreeSet) (h : s.Inv cmp) (prog : List IterOp) (m : Mem)
     (hm : TreeTable.Owns s.t m) :
     (s.iterRun cmp s.iterInit prog m).1 =
       ((Cursor.init s.t.abs).run s.t.abs prog).1.map (fun o => { st := o.st, val := o.val }) ∧
     (s.iterRun cmp s.iterInit prog m).2.1.t.abs = ((Cursor.init s.t.abs).run s.t.abs prog).2.2 ∧
     (s.iterRun cmp s.iterInit prog m).2.1.t.Inv cmp ∧
     (TreeTable.IterValid cmp s.t s.iterInit prog m → (s.iterRun cmp s.iterInit prog m).2.2.2.fault = m.fault) := by
-  have k := program_refines_model ho s.t h.1 prog m hm
+  have k := program_refines ho s.t h.1 prog m hm
   have e := TreeSet.iterRun_eq_table (cmp := cmp) prog s s.iterInit m
   rw [e.1, e.2.1, e.2.2.2]
   have hi : s.iterInit = s.t.iterInit := rfl
@@ -154,12 +197,12 @@ theorem set_program_refines_model (ho : TotalOrder cmp) (s : TreeSet) (h : s.Inv
   exact ⟨by rw [k.1], k.2.1, k.2.2.1, k.2.2.2.1⟩
 
 /-- **traversal_complete** for the set: every element once, ascending, then `CC_ITER_END` -/
-theorem set_traversal_complete_model (ho : TotalOrder cmp) (s : TreeSet) (h : s.Inv cmp) (m : Mem)
+theorem set_traversal_complete (ho : TotalOrder cmp) (s : TreeSet) (h : s.Inv cmp) (m : Mem)
     (hm : TreeTable.Owns s.t m) :
     (s.iterRun cmp s.iterInit (List.replicate (s.t.size + 1) .next) m).1 =
       s.abs.map (fun e => { st := some .ok, val := some e }) ++ [{ st := some .iterEnd }] ∧
     s.abs.Pairwise (fun a b => cmp a b < 0) ∧ s.abs.Nodup := by
-  have k := traversal_complete_model ho s.t h.1 m hm
+  have k := traversal_complete ho s.t h.1 m hm
   have e := TreeSet.iterRun_eq_table (cmp := cmp) (List.replicate (s.t.size + 1) .next) s s.iterInit m
   refine ⟨?_, k.2.1, k.2.2.1⟩
   rw [e.1]
